@@ -28,6 +28,22 @@ CLAIMED = {
          "handed to execJob twice, a job is submitted only from its empty state and then carries _jobinfo, exactly the chunks _stage_defs lists are "
          "created, a disabled fork submits nothing and is marked disabled.",
          "Trusted: go/ssa, symgo, z3; the OS-boundary and AST/JSON stubs listed in the evidence (each returns an arbitrary outcome within its contract); the assumed representation invariant PhaseInv; the hand-built graph (one fork per node, <=2 chunks, P{PRE,A,C,Q{B}}). Outside: prenode construction from bindings, dynamic fork expansion, real processes and job-manager queues. Also outside: static fork enumeration (MakeForkIds) and compile-time disabled pruning.", "DESIGN.md §4 C03, appendix A"),
+ "C04": ("Decision and bookkeeping of volatile data removal from the real code: partialVdrKill from arbitrary coarse states of the "
+         "producer fork and two consumers with arbitrary keep-alive membership (incl. the top-level/retain holder), and the real "
+         "vdrKillSome/vdrKill with os.RemoveAll recorded over a symbolic file cache (directory, file inside it, sibling; arbitrary "
+         "keep-alive sets, sizes, live arguments). Asserted: full kill only for a completed, not failed fork whose bound consumers are all "
+         "complete/disabled and with no top-level hold; only unheld paths (and nothing containing a held path) are removed; fileArgs/"
+         "filePostNodes stay consistent; non-volatile stages lose only chunk files of splitting stages; anyOverlap/pathIsInside string kernels.",
+         "Trusted: go/ssa, symgo, z3/cvc5, the stubs and fixture listed in the evidence. Outside: on-disk names and symlinks, JSON-derived file "
+         "lists, construction of the keep-alive relation from the AST, the real goroutine schedule, the stage contract.",
+         "DESIGN.md §4 C04"),
+ "C14": ("Partial (accounting and phases): same harnesses as C04. Asserted: the kill report's size and count grow by exactly the cached sizes/"
+         "counts of the removed paths (collapsed children included, on top of an existing partial report), every reported path was passed to "
+         "RemoveAll and lies inside the fork directory, everything nothing keeps alive is reclaimed, split/chunk/join temp cleaning runs in the "
+         "phases named and never twice (restart between partial and final).",
+         "Trusted: as C04. Outside: what survives on disk, the temp-directory walks themselves (clean*Temp internals), event time-lines, the "
+         "pipestance-level merge.",
+         "DESIGN.md §4 C14"),
  "C06": ("Partial (scheduler decision kernel): faults are symbolic sentinel files and stub verdicts — _errors/_assert in any combination, "
          "unreadable or invalid outputs, unparseable _stage_defs. Asserted: failure precedence, a failed job fails its fork and node, a failed "
          "node stays on the frontier and the pipestance state is failed never complete, consumers wait and submit nothing, independent stages "
